@@ -99,10 +99,28 @@ def relevant(spec, opline, difline):
     return False
 
 
-def compare_and_monitor(opsf, robs, mobs, pid, spec, M, known):
+def load_probes(path):
+    """probe file of `krp-harness probe` -> list (one per history) of {op index: [token lists]}"""
+    hists = []
+    cur = None
+    with open(path) as f:
+        for ln in f:
+            ln = ln.rstrip('\n')
+            if ln == 'history':
+                cur = {}
+                hists.append(cur)
+            elif ln.startswith('probe ') and cur is not None:
+                t = ln.split(' ')
+                cur.setdefault(int(t[1]), []).append(t[2:])
+    return hists
+
+
+def compare_and_monitor(opsf, robs, mobs, pid, spec, M, known, probes=None):
     ops = read_ops(opsf)
+    probe_hists = load_probes(probes) if probes else None
+    hist_no = -1
     res = dict(histories=0, ops=0, ok=0, err=0, first_diffs=0, relevant_diffs=0, opkinds={},
-               monitor_checks=0, monitor_violations=[], relevant=[], known_hits={}, samples=[])
+               monitor_checks=0, monitor_violations=[], relevant=[], known_hits={}, samples=[], explain=[])
     mons = M.HISTORY_MONITORS.get(pid, [])
     rb = blocks(robs)
     mb = blocks(mobs)
@@ -123,6 +141,7 @@ def compare_and_monitor(opsf, robs, mobs, pid, spec, M, known):
         except StopIteration:
             mh, mt, md = (['op', '?', 'missing'], [], [])
         if op.startswith('reset'):
+            hist_no += 1
             if first_hist is None and hist_ops:
                 first_hist = hist_ops[:14]
             res['histories'] += 1
@@ -167,6 +186,8 @@ def compare_and_monitor(opsf, robs, mobs, pid, spec, M, known):
         # ---- monitors on the implementation
         if mons:
             cur = State(rd)
+            if probe_hists is not None:
+                hstate['_probes'] = probe_hists[hist_no].get(int(rh[1]), []) if 0 <= hist_no < len(probe_hists) else []
             for mon in mons:
                 res['monitor_checks'] += 1
                 try:
@@ -177,6 +198,9 @@ def compare_and_monitor(opsf, robs, mobs, pid, spec, M, known):
                     continue
                 if out[0] == 'known':
                     res['known_hits'][out[1]] = out[2]
+                elif out[0] == 'explain':
+                    if len(res['explain']) < 400:
+                        res['explain'].append(dict(op_index=int(rh[1]), op=op, message=out[1], ops=list(hist_ops)))
                 elif len(res['monitor_violations']) < 5:
                     res['monitor_violations'].append(dict(op_index=int(rh[1]), op=op, message=out[1],
                                                           ops=list(hist_ops)))
